@@ -540,7 +540,9 @@ def replay(doc, path):
     configuration processing them in its recorded order."""
     case = doc["case"]
     documents = [(d["id"], d["document"], d.get("ext")) for d in case["documents"]]
-    res = run_orders(documents, case["configs"], case["orders"], full=True)
+    # decide in the same mode the check used (keeping the full texts changes
+    # the allocation pattern of the child, which matters for address-dependent bugs)
+    res = run_orders(documents, case["configs"], case["orders"], full=False)
     target = case["target"]
     first = res[0]["docs"].get(target)
     differing = [
